@@ -105,6 +105,7 @@ impl Directive {
         let ParseContext {
             current_path,
             include_paths,
+            include_depth,
             common_context,
             segments,
             macros,
@@ -263,6 +264,7 @@ impl Directive {
                         let context = ParseContext {
                             current_path: PathBuf::from(include),
                             include_paths: include_paths.clone(),
+                            include_depth: include_depth + 1,
                             common_context: common_context.clone(),
                             segments: segments.clone(),
                             macros: macros.clone(),
